@@ -69,11 +69,67 @@ def events(f, region):
     return out
 
 
+def check_symdiff(ctx, f, regions):
+    """R-SYMDIFF: in the two unreferenced-symbol regions, a deletion of the edit script indexes the *first* corpus' symbols
+    and is kept as `deleted` exactly when the symbol is not found in the second corpus; an insertion indexes the *second*
+    corpus' symbols and is kept as `added` only when the symbol is not found in the first (interpreted in the worlds
+    lookup = found / not found; the bookkeeping test against the deleted map is left open)."""
+    from rules.world import World, ANY
+    n = 0
+    for reg in ("unrefed_fn_syms_edit_script_", "unrefed_var_syms_edit_script_"):
+        R = regions[reg]
+        name = reg.replace("_edit_script_", "")
+        loops = [x for x in R.get("c", []) if x is not None and x["k"] == "ForStmt"]
+        for loop in loops:
+            # which list of the script does the loop walk, which corpus does it index, which does it look up in
+            walks = {(f.decl(y) or {}).get("n") for y in walk(loop["c"][0]) if y["k"] == "CXXMemberCallExpr"} if loop["c"][0] is not None else set()
+            kind = "deletions" if "deletions" in walks else "insertions" if "insertions" in walks else None
+            if kind is None:
+                continue
+            subs = set()
+            for x in walk(loop):
+                if x["k"] == "CXXOperatorCallExpr" and x.get("op") == "[]":
+                    for y in walk(call_args(x)[0]):
+                        fld = field_of(f, y) if y["k"] == "MemberExpr" else None
+                        if fld in ("first_", "second_"):
+                            subs.add(fld)
+            looks = {e.split()[1].split("->")[0] for _, e in events(f, loop) if e.startswith("lookup ")}
+            stores = [n_ for n_, e in events(f, loop) if e.startswith("store ") and (("deleted" in e) == (kind == "deletions"))]
+            want_sub, want_look = ("first_", "second_") if kind == "deletions" else ("second_", "first_")
+            n += 1
+            ok = subs == {want_sub} and looks == {want_look}
+            ctx.ob("R-SYMDIFF", "%s: the %s index the %s corpus and are looked up in the other" % (name, kind, "first" if kind == "deletions" else "second"),
+                   ok, f.loc(loop), "symbols of %s, lookups in %s" % (want_sub, want_look) if ok else
+                   "the loop over the %s indexes %s and looks up in %s: the wrong symbols are reported" % (kind, sorted(subs), sorted(looks)))
+            if not stores:
+                raise AnalysisBroken("anchor vanished: no store into the %s map in the %s loop of %s" % ("deleted" if kind == "deletions" else "added", kind, name))
+            for found in (True, False):
+                def atom(e):
+                    if e["k"] == "CXXMemberCallExpr" and (f.decl(e) or {}).get("n") in ("lookup_function_symbol", "lookup_variable_symbol"):
+                        return ["SYM" if found else None]
+                    return None
+                W = World(f, atom)
+                track = {x.get("d") for x in f.nodes() if x["k"] == "VarDecl" and
+                         (f.unit.type((f.unit.decl(x.get("d")) or {}).get("t")) or {}).get("s") in ("bool", "const bool")}
+                W.run_env(track)
+                reached = W.reached_elems
+                hit = any(s_["i"] in reached for s_ in stores)
+                n += 1
+                ok = hit == (not found)
+                what = "removed" if kind == "deletions" else "added"
+                ctx.ob("R-SYMDIFF", "%s: a symbol %s in the other corpus is %sreported as %s" % (
+                    name, "found" if found else "not found", "not " if found else "", what), ok, f.loc(stores[0]),
+                    "decided by the lookup" if ok else
+                    ("a symbol that is still there is reported as %s" % what if found else
+                     "a symbol present in one corpus only is not reported as %s" % what))
+    ctx.floor("R-SYMDIFF", "obligations over the unreferenced-symbol regions", n, 12)
+
+
 def run(ctx):
     ctx.clause = ("function symbols and variable symbols get the same re-lookup treatment (symbol still present => "
                   "not removed; default-version re-export rule) in both the declared and the unreferenced-symbol "
                   "regions")
-    ctx.rules = ["R-SIBSYM", "R-VERLOOKUP"]
+    ctx.rules = ["R-SIBSYM", "R-VERLOOKUP", "R-SYMDIFF"]
     P = ctx.program(UNITS)
     f = P.fn1("abigail::comparison::corpus_diff::priv::ensure_lookup_tables_populated")
     ctx.analysed(f)
@@ -114,6 +170,7 @@ def run(ctx):
                    "kind of symbol is re-looked-up differently from the other" % (
                        i, sa[i] if i < len(sa) else "<end>", f.loc(na), sb[i] if i < len(sb) else "<end>", f.loc(nb)))
     ctx.floor("R-SIBSYM", "symbol-lookup events", n_ev, 30)
+    check_symdiff(ctx, f, regions)
     from rules import verlookup_rule
     verlookup_rule.check(ctx, ctx.program(verlookup_rule.UNITS))
     ctx.assume("the set arithmetic over the runtime symbol sets is not decided; the added/deleted asymmetry "
